@@ -219,6 +219,9 @@ func (c13) Run(c *fw.Case) {
 		&jsonschema.Schema{Items: &jsonschema.Schema{Properties: map[string]*jsonschema.Schema{"k": {Const: jsonschema.Ptr[any]("v")}}, PropertyOrder: []string{"k", "k2"}}, Properties: map[string]*jsonschema.Schema{}, PropertyOrder: []string{"none"}},
 	)
 
+	sharedNoLoader := &jsonschema.ResolveOptions{BaseURI: "http://h/strict.json"}
+	sharedWithLoader := &jsonschema.ResolveOptions{BaseURI: "http://h/strict.json", Loader: loader}
+
 	// --- the call list: a pure function of the seed ---
 	var inside, maxInside atomic.Int64
 	enter := func() {
@@ -344,6 +347,19 @@ func (c13) Run(c *fw.Case) {
 			case 1:
 				add("W4-clone", func() string { return digestBytes(json.Marshal(rootS.CloneSchemas())) })
 			case 2:
+				if r.IntN(3) == 0 {
+					// one ResolveOptions VALUE shared by all goroutines (a package-level default, say): without a Loader the
+					// remote reference fails to load, with one it resolves; either way the options are only read
+					so := sharedNoLoader
+					if r.IntN(2) == 0 {
+						so = sharedWithLoader
+					}
+					add("W4-resolve-shared-options", func() string {
+						_, err := rootS.Resolve(so)
+						return fmt.Sprint(err == nil)
+					})
+					break
+				}
 				inst := gen.Pick(r, insts)
 				add("W4-resolve", func() string {
 					rs2, err := rootS.Resolve(&jsonschema.ResolveOptions{Loader: loader, ValidateDefaults: true})
